@@ -7,19 +7,19 @@ v_begin() { # dodir_rel dofile_rel version $1 $2 $3
   RV_T=${RV_DODIR:+$RV_DODIR/}$RV_A1
   RV_ACC="T $RV_T $RV_DOF v$RV_VER
 "
-  rv_tr "S $RV_T $$ $PPID"
-  rv_tr "A $RV_T|$RV_A1|$RV_A2|$RV_A3|$PWD"
-  rv_ev "S $RV_T $$ $PPID"
+  rv_tr "S|$RV_T|$$|$PPID"
+  rv_tr "A|$RV_T|$RV_A1|$RV_A2|$RV_A3|$PWD"
+  rv_ev "S|$RV_T|$$|$PPID"
 }
-v_exit() { rv_tr "X $RV_T $1 $$"; rv_ev "X $RV_T $1 $$"; exit "$1"; }
+v_exit() { rv_tr "X|$RV_T|$1|$$"; rv_ev "X|$RV_T|$1|$$"; exit "$1"; }
 v_ifchange() {
   _rc=0; redo-ifchange "$@" || _rc=$?
-  rv_tr "R $RV_T $_rc ifchange $*"
+  rv_tr "R|$RV_T|$_rc|ifchange|$*"
   [ "$_rc" = 0 ] || v_exit "$_rc"
 }
 v_ifchange_soft() { # like v_ifchange but remembers the status instead of exiting (keep-going style scripts)
   _rc=0; redo-ifchange "$@" || _rc=$?
-  rv_tr "R $RV_T $_rc ifchange $*"
+  rv_tr "R|$RV_T|$_rc|ifchange|$*"
   [ "$_rc" = 0 ] || RV_SOFT=$_rc
 }
 v_use() { # rel rootrel
@@ -34,7 +34,7 @@ v_ifc() { # rel rootrel use
 "; fi
   else
     _rc=0; redo-ifcreate "$1" || _rc=$?
-    rv_tr "R $RV_T $_rc ifcreate $1"
+    rv_tr "R|$RV_T|$_rc|ifcreate|$1"
     [ "$_rc" = 0 ] || v_exit "$_rc"
     RV_ACC="${RV_ACC}I $2 absent
 "
@@ -42,12 +42,12 @@ v_ifc() { # rel rootrel use
 }
 v_ifcreate_raw() { # rel
   _rc=0; redo-ifcreate "$1" || _rc=$?
-  rv_tr "R $RV_T $_rc ifcreate $1"
+  rv_tr "R|$RV_T|$_rc|ifcreate|$1"
   [ "$_rc" = 0 ] || v_exit "$_rc"
 }
 v_always() {
   _rc=0; redo-always || _rc=$?
-  rv_tr "R $RV_T $_rc always"
+  rv_tr "R|$RV_T|$_rc|always|"
   [ "$_rc" = 0 ] || v_exit "$_rc"
 }
 v_ext() { # name
@@ -59,14 +59,14 @@ v_failflag() { # name code
   if [ -e "$RV_CTL/fail.$1" ]; then v_exit "$2"; fi
 }
 v_work() { # gate id: announce, block until the harness opens the gate FIFO for writing, announce again
-  rv_tr "W $RV_T $1 $$"
+  rv_tr "W|$RV_T|$1|$$"
   if [ -n "${RV_EVENTS:-}" ]; then
     mkfifo "$RV_CTL/go.$$.$1"
-    rv_ev "W $RV_T $1 $$"
+    rv_ev "W|$RV_T|$1|$$"
     read _x < "$RV_CTL/go.$$.$1" || true
   fi
-  rv_tr "E $RV_T $1 $$"
-  rv_ev "E $RV_T $1 $$"
+  rv_tr "E|$RV_T|$1|$$"
+  rv_ev "E|$RV_T|$1|$$"
 }
 v_err() { cat "$RV_CTL/$1" >&2; }
 v_out() { # stdout | file
